@@ -298,4 +298,4 @@ def parts(tier):
     Q.set_open({f["key"] for f in load_findings("C04") if f.get("status") == "known"})
     quick = tier == "quick"
     return [HypPart(name="refs", check=check, strategy=_case,
-                    examples=30 if quick else 700, seconds=55 if quick else 700)]
+                    examples=30 if quick else 700, seconds=55 if quick else 600)]
